@@ -53,7 +53,11 @@ func checkC08(c *Ctx) {
 			}
 			r.CallSites++
 			key := fnName(f) + ":Source.Write"
-			r.Check(f == W, "C08.only-path", key, p.IPos(call), "append to a history source inside the single write path",
+			inW := f == W
+			if !inW {
+				inW, _ = p.onlyReachedThrough(f, map[string]bool{fnName(W): true})
+			}
+			r.Check(inW, "C08.only-path", key, p.IPos(call), "append to a history source inside the single write path",
 				"a history source is written outside (*Sources).Write — lines can be recorded twice or without the filters")
 		}
 	}
